@@ -92,7 +92,8 @@ func indexTable(p *lang.Process, params []string) error {
 	marshaller := func(s []string) []byte {
 		b, err3 := lang.MarshalData(p, types.Json, s)
 		if err3 != nil {
-			close(cRecords)
+			// cRecords belongs to the reader goroutine above: closing it here as well
+			// ends in "close of closed channel" (or a send on a closed channel)
 			status <- err3
 		}
 		return b
